@@ -555,6 +555,19 @@ def checkStep (e : Env) (pre : Sys) (op : Op) (res : Res) (post : Sys) (origin :
        let got := post.st.bal a - pre.st.bal a
        if got ≤ charged then none else some ("C04", s!"clause=refundWithinCharge cls=none rec=acct{a}:refund={got},charged={charged}"))
    else []) ++
+  -- C04 / C13: an order leaves a model's order list only settled — a force-push terminates (refunds, releases) every order
+  -- of the version it replaces before dropping it from the list, so none of them is left in the order store, paid for and
+  -- unreachable from the model
+  (if res = .ok then
+     pre.st.metas.flatMap (fun m =>
+       match post.st.getMeta m.dataId with
+       | none => []
+       | some m' =>
+         let dropped := m.orders.filter (fun id => !m'.orders.contains id && (post.st.getOrder id).isSome)
+         if dropped.isEmpty then [] else
+           [("C04", s!"clause=droppedOrderSettled cls=none rec=orders{dropped}"),
+            ("C13", s!"clause=droppedOrderSettled cls=none rec=orders{dropped}")])
+   else []) ++
   -- C04 / C05: an accepted Store moves into the order escrow exactly the amount the order it creates records (refunds and
   -- settlements are computed from the record: a record below the charge means the payer is never made whole), and an
   -- accepted Renew moves into the market escrow exactly what the renewal orders record
